@@ -76,14 +76,29 @@ def call_external(I, name, args, kwargs, node, frame):
     if name == "json.dumps":
         return VStr(_fn("json_dumps", AnySort, z3.StringSort())(I.inject_deep(args[0])))
     if name == "json.loads":
-        k = run.choose([("ok", None), ("JSONDecodeError", None), ("RecursionError", None), ("ValueError", None)], "json.loads")
-        if k:
-            raise E.PyExc(VExc(["JSONDecodeError", "RecursionError", "ValueError"][k - 1]), "json.loads")
-        return VAny(_fn("json_loads", z3.StringSort(), AnySort)(args[0].t), "json")
+        # deterministic partial function: parses iff json_ok(s); otherwise one of the three documented exception classes
+        a0 = args[0]
+        st = a0.t if isinstance(a0, VStr) else None
+        if st is None:
+            raise E.PyExc(VExc("TypeError"), "json.loads of non-str") if isinstance(a0, VNone) else E.Unsupported("json.loads of non-str")
+        if run.decide(_fn("json_ok", z3.StringSort(), z3.BoolSort())(st), "json.loads parses"):
+            return VAny(_fn("json_loads", z3.StringSort(), AnySort)(st), "json")
+        k = run.choose([("JSONDecodeError", None), ("RecursionError", None), ("ValueError", None)], "json.loads raises")
+        raise E.PyExc(VExc(["JSONDecodeError", "RecursionError", "ValueError"][k]), "json.loads")
     if name == "re.compile":
         if run.choose([("ok", None), ("re.error", None)], "re.compile"):
             raise E.PyExc(VExc("error"), "re.compile")
         return VAny(_fn("re_compile", z3.StringSort(), AnySort)(args[0].t), "pattern")
+    if name == "re.findall":
+        # deterministic total function of (pattern, subject): a list of substrings of the subject
+        nm = run.fresh_name("re.findall")
+        key = f"findall({args[0].t},{args[1].t})"[:200]
+        return I.fresh(("list", ("str",)), key)
+    if name == "re.sub":
+        repl = args[1]
+        if not isinstance(repl, VStr):
+            return VStr(z3.Const(run.fresh_name("re.sub"), z3.StringSort()))
+        return VStr(_fn("re_sub", z3.StringSort(), z3.StringSort(), z3.StringSort(), z3.StringSort())(args[0].t, repl.t, args[2].t))
     if name == "ast.parse":
         k = run.choose([("ok", None), ("SyntaxError", None), ("ValueError", None), ("RecursionError", None), ("MemoryError", None)],
                        "ast.parse")
